@@ -22,7 +22,7 @@ EXPLANATION = (
     "and nothing else) - also put to carquet_snappy_get_uncompressed_length, which must return the value of every well-formed preamble on either side of each 7-bit "
     "boundary. Pointer arithmetic is modelled modulo 2^64 and the execution stops at the first access outside the stream or the destination, so a length that went "
     "negative and a guard that wrapped are seen as what they are. "
-    "(state) the block codecs keep no mutable file-scope or static state: what a compress call emits does not depend on earlier calls - every mutable file-scope variable and static local under src/compression/ is thread-local, never written, or an accepted idempotent lazy table (rule shared with C07). Decides these clauses - what each element means to the decoder and how each element is spelled by the encoder - on a bounded "
+    "(state) the block codecs keep no mutable file-scope or static state: what a compress call emits does not depend on earlier calls - every mutable file-scope variable and static local under src/compression/ is thread-local, never written, or an accepted idempotent lazy table (rule shared with C07). (R47) thread-local or static arrays in src/compression are scratch tables: in every externally visible function that consults one (directly or through helpers of the file), no path from the entry reaches a use without a `memset` of the table or a call to a helper that resets it on all of its paths - a reset skipped on some path lets entries of an earlier call decide what this call emits (lazily built constant tables accepted by the lazy-initialisation rule are not scratch state; today's tree keeps its tables on the stack, so the rule's only instances are its control twins). Decides these clauses - what each element means to the decoder and how each element is spelled by the encoder - on a bounded "
     "grid of element forms; it does not decide the encoders' output for arbitrary data (which matches they find, the end-of-block "
     "literal rules as a consequence of the match finder), nor acceptance of every valid stream outside the grid.")
 
@@ -32,6 +32,9 @@ LZ = "src/compression/lz4.c"
 
 def run(ctx):
     P = ctx.P
+    ctx.clause("C10.8 a match table or scratch table kept per thread (or static) in src/compression is reset in every call before it is consulted: what a compress call emits does not depend on the calls before it (R47)")
+    from ..rules import callstate
+    ctx.count("per_call_tables", callstate.check(ctx, sorted(set(ctx.P.rel(f.file) for f in ctx.P.lib_functions() if ctx.P.rel(f.file).startswith("src/compression/")))))
     ctx.clause("C10.7 the block codecs keep no mutable file-scope or static state: what a compress call emits does not depend on earlier calls (rule shared with C07)")
     from . import C07 as _c07
     ctx.count("file_scope_variables_examined", _c07.global_state(ctx, scope="src/compression/", rule="R7.codec-state"))
